@@ -104,6 +104,8 @@ def cells_formula(tier):
         for shape in ((3,), (2, 3), (2, 2, 3), ()):
             for axis in [-1, 0, None] + ([1, (0, 1)] if len(shape) >= 2 else []):
                 yield ("F", fn, shape, axis)
+                yield ("F", fn, shape, axis, 300.0)  # logits of magnitude several hundred: exp(x) itself overflows
+                yield ("F", fn, shape, axis, 0.0)  # all logits equal
     for T in (1, 2, 3):
         for N in (1, 2):
             for C in (1, 2):
@@ -376,8 +378,8 @@ def check_formula(cell):
                     ref[idx] = y * (gam[c] if g else 1.0) + (bet[c] if b else 0.0)
         return None if close(out.data, ref, 1e-9) else ("value", "batchnorm differs from (x-E[x])/sqrt(Var[x]+eps)*gamma+beta")
     if kind in ("softmax", "logsoftmax"):
-        _, _, shape, axis = cell
-        X = vals(shape, 2)
+        shape, axis = cell[2], cell[3]
+        X = vals(shape, 2) * (cell[4] if len(cell) > 4 else 1.0)
         f = getattr(A, kind)
         try:
             out = f(mg.tensor(X), axis=axis)
@@ -389,10 +391,10 @@ def check_formula(cell):
         ax = tuple(a % max(len(shape), 1) for a in ax) if shape else ()
         ref = np.zeros(shape)
         for idx in np.ndindex(*shape):
-            den = sum(math.exp(X[j]) for j in np.ndindex(*shape) if all(j[k] == idx[k] for k in range(len(shape)) if k not in ax))
-            ref[idx] = math.exp(X[idx]) / den
-        if kind == "logsoftmax":
-            ref = np.log(ref)
+            lane = [j for j in np.ndindex(*shape) if all(j[k] == idx[k] for k in range(len(shape)) if k not in ax)]
+            m = max(X[j] for j in lane)  # exp(x - m) / sum(exp(x_j - m)): the documented quotient with numerator and denominator divided by exp(m)
+            den = sum(math.exp(X[j] - m) for j in lane)
+            ref[idx] = (X[idx] - m) - math.log(den) if kind == "logsoftmax" else math.exp(X[idx] - m) / den
         return None if close(out.data, ref) else ("value", "%s(axis=%r) differs from exp(x)/sum(exp(x))" % (kind, axis))
     if kind == "gru":
         _, _, T, N, C, D, s0 = cell
